@@ -21,7 +21,7 @@ import (
 // C09 — keys are isolated: hash collisions and key-buffer reuse never leak (DESIGN §C09).
 
 type c09Cell struct {
-	Mode     string `json:"mode"` // seq | failover | conc
+	Mode     string `json:"mode"`        // seq | failover | conc
 	A        []int  `json:"a,omitempty"` // conc: thread A program
 	Backend  string `json:"backend,omitempty"`
 	Scribble bool   `json:"scribble,omitempty"` // overwrite the key buffer after every call
@@ -684,7 +684,7 @@ func c09Conc(cc c09Cell, env *Env) CellResult {
 					seenSig[v.Signature] = true
 					v.Choices = r.Choices()
 					mustReproduce(v.Signature, v.Choices, body, check)
-				mustReproduce(v.Signature, v.Choices, body, check)
+					mustReproduce(v.Signature, v.Choices, body, check)
 					v.Extra, _ = json.Marshal(pi)
 					v.Detail += fmt.Sprintf("\n  program: A=%v B=%v", opNames(cc.A), opNames(pb))
 					res.Violations = append(res.Violations, v)
